@@ -358,6 +358,8 @@ inductive Ty where
   | floatPat                      -- Pattern[/FloatPattern/]
   | float (lo hi : Int)           -- Float[lo,hi]: the stored bounds as keys (Model/CtorFl.lean); default = ∓maxFiniteKey
   | numeric
+  | binary
+  | timespan (lo hi : Int)        -- Timespan[lo,hi] in nanoseconds; default = the whole int64 range
   | arr (e : Ty) (lo : Nat) (hi : Option Nat)
   | tuple (ts : List Ty)                                   -- Tuple[T1,…,Tn] without a size: exactly n elements
   | hash (k v : Ty) (lo : Nat) (hi : Option Nat)
@@ -374,6 +376,8 @@ inductive Val where
   | str (s : String)
   | bool (b : Bool)
   | float (bits : Nat)                                     -- a float64 as its IEEE bits (Model/CtorFl.lean)
+  | binary (bs : List UInt8)
+  | timespan (ns : Int)                                    -- a Timespan as its int64 number of nanoseconds
   | undef
   | default
   | arr (vs : List Val)
@@ -473,6 +477,8 @@ def inst : Ty → Val → Bool
   | .floatPat, v => match v with | .str s => floatPattern s.toList | _ => false
   | .float lo hi, v => match v with | .float b => F64.inRange lo hi b | _ => false
   | .numeric, v => match v with | .int _ => true | .float _ => true | _ => false
+  | .binary, v => match v with | .binary _ => true | _ => false
+  | .timespan lo hi, v => match v with | .timespan n => decide (lo ≤ n) && decide (n ≤ hi) | _ => false
   | .arr e lo hi, v => match v with
     | .arr vs => decide (lo ≤ vs.length) && leMax vs.length hi && vs.all (fun x => inst e x)
     | _ => false
